@@ -78,6 +78,8 @@ def canon(obj: Any) -> Any:
                 return {"T": dt, "s": shape, "v": [int(v) if abs(v) != float("inf") else repr(v) for v in flat]}
         if t.is_complex():
             t = torch.view_as_real(t.contiguous())
+        if t.dtype in (torch.bfloat16, torch.float16):
+            t = t.float()  # numpy has no bfloat16; the conversion is exact
         b = t.contiguous().numpy().tobytes()
         return {"T": dt, "s": shape, "h": hashlib.sha256(b).hexdigest()[:24]}
     if isinstance(obj, (list, tuple)):
